@@ -76,7 +76,7 @@ func VerifC14ArbitraryAlpn() {
 	})
 	vf.Assert("listener-built", err == nil)
 	var ci ClientInfo
-	protos := []string{vf.String("p", 48), vf.String("p", 48)}
+	protos := []string{vf.String("p", 48), vf.String("p", 48), vf.String("p", 48)}
 	_, _ = l.getTlsConfigForClient(&ci)(&tls.ClientHelloInfo{SupportedProtos: protos})
 	vf.Reach("end")
 }
